@@ -17,6 +17,7 @@ pub async fn run_conn_h2(
     world: World,
     addr: SocketAddr,
     plan: ConnPlan,
+    tls: bool,
 ) -> ConnObs {
     let ms = Duration::from_millis;
     if plan.start_ms > 0 {
@@ -39,24 +40,47 @@ pub async fn run_conn_h2(
     };
     let conn_id = end.conn;
     obs.conn_id = Some(conn_id);
-    let hs = hyper::client::conn::http2::handshake::<_, _, Full<Bytes>>(
-        TokioExecutor::new(),
-        TokioIo::new(end.clone()),
-    )
-    .await;
-    let (sender, conn) = match hs {
-        Ok(x) => x,
-        Err(e) => {
-            for x in obs.h2_err.iter_mut() {
-                *x = Some(format!("handshake: {e}"));
+    // Over TLS the client offers "h2" through ALPN; otherwise prior-knowledge
+    // HTTP/2 over the plain connection.
+    let (sender, conn_task) = if tls {
+        let connector = tokio_rustls::TlsConnector::from(crate::client_tls::client_config_h2());
+        let name = rustls::pki_types::ServerName::try_from("sim").unwrap();
+        let stream = match tokio::time::timeout(ms(crate::exec::LIVENESS_MS), connector.connect(name, end.clone())).await {
+            Ok(Ok(s)) => s,
+            other => {
+                let why = match other {
+                    Ok(Err(e)) => format!("tls handshake: {e}"),
+                    _ => "tls handshake timed out".to_string(),
+                };
+                for x in obs.h2_err.iter_mut() {
+                    *x = Some(why.clone());
+                }
+                end.close_orderly();
+                return obs;
             }
-            end.close_orderly();
-            return obs;
+        };
+        match hyper::client::conn::http2::handshake::<_, _, Full<Bytes>>(TokioExecutor::new(), TokioIo::new(stream)).await {
+            Ok((s, conn)) => (s, tokio::spawn(async move { let _ = conn.await; })),
+            Err(e) => {
+                for x in obs.h2_err.iter_mut() {
+                    *x = Some(format!("handshake: {e}"));
+                }
+                end.close_orderly();
+                return obs;
+            }
+        }
+    } else {
+        match hyper::client::conn::http2::handshake::<_, _, Full<Bytes>>(TokioExecutor::new(), TokioIo::new(end.clone())).await {
+            Ok((s, conn)) => (s, tokio::spawn(async move { let _ = conn.await; })),
+            Err(e) => {
+                for x in obs.h2_err.iter_mut() {
+                    *x = Some(format!("handshake: {e}"));
+                }
+                end.close_orderly();
+                return obs;
+            }
         }
     };
-    let conn_task = tokio::spawn(async move {
-        let _ = conn.await;
-    });
     let mut tasks = Vec::new();
     for hr in plan.h2.iter().cloned() {
         let mut sender = sender.clone();
